@@ -241,8 +241,8 @@ def r_bom_needs_two(ctx, repo):
         _subst_eval(repo, loop.test, {'self.raw_buffer': "b'a'", 'self.eof': 'True'}, {}) is False
     cfg = CFG(f.node)
     tests = [n for n in cfg.nodes if n.kind == 'test' and 'startswith(codecs.BOM' in norm(n.ast)]
-    ln = cfg.nodes_of(loop.test)
-    dominated = bool(tests) and bool(ln) and all(cfg.dominates(ln[0], t) for t in tests)
+    head = cfg.entry_of(loop)
+    dominated = bool(tests) and head is not None and all(cfg.dominates(head, t) for t in tests)
     if not bad and stop_ok and dominated:
         rule.ok(f.loc(loop), 'reads while fewer than 2 bytes and not eof; BOM tests follow the loop')
     else:
